@@ -1,6 +1,7 @@
 """C05 / C11 / C15 panic-freedom and termination rules:
 RESIDUE (Engine B + ledger), INV-* (table invariants the ledger's `table-invariant` classes rely on),
 DIV-GUARD (GF division census), T-ALT / T-LOOPS (termination of the decoding loops)."""
+import re
 import json
 import os
 from collections import defaultdict
@@ -29,10 +30,53 @@ def _residue_groups(ctx):
         a = R.attributed(f, ctx.repo)
         grp = defaultdict(dict)
         for x in a:
-            grp[(x["owner"], x["kind"])].setdefault(x["pos"], x)
+            owner = x["owner"]
+            if str(x.get("std_loc") or "").startswith(("alloc/", "core/", "std/")) and not owner.startswith("(std)"):
+                # the failing check's own Location lies inside alloc/core (not #[track_caller]): an invariant of the
+                # instantiated std generic, whichever crate frame happens to be nearest in the debug info
+                owner = "(std) " + owner
+            grp[(owner, x["kind"])].setdefault(x["pos"] if not owner.startswith("(std)") or x["pos"] == "-" else x["pos"] + "@" + str(x.get("std_loc")), x)
         uni = R.universe(f)
         ctx._resid[key] = (g, grp, uni, len(a))
     return ctx._resid[key]
+
+
+def family(kind):
+    """residual sites are compared per family: rewriting `2 * t` as `t + t`, `.expect(..)` as an explicit `panic!`, or
+    `assert!(c)` as `if !c { panic!() }` moves a site between kinds of one family without adding an unproved failure"""
+    if kind.startswith("overflow-"):
+        return "overflow"
+    if kind in ("panic", "expect", "unwrap", "assert"):
+        return "explicit"
+    return kind
+
+
+_CLOS = re.compile(r"(::\{closure#\d+\})+$")
+
+
+def parent_fn(owner):
+    """closures are accounted with the function that contains them (`.map(Into::into)` vs `.map(|c| c.into())` moves
+    the nearest crate frame of std-internal checks into a closure)"""
+    return _CLOS.sub("", owner)
+
+
+def _merge_ledger(entries):
+    led = {}
+    for e in entries:
+        k = (parent_fn(e["owner"]), family(e["kind"]))
+        if k not in led:
+            led[k] = dict(e, kind=k[1], snippets=list(e.get("snippets", [])))
+        else:
+            m = led[k]
+            m["max_sites"] += e["max_sites"]
+            m["snippets"] += e.get("snippets", [])
+            if e["class"] != m["class"]:
+                # undecided if any merged entry is undecided
+                if e["class"].startswith("not-decided") and not m["class"].startswith("not-decided"):
+                    m["class"], m["reason"] = e["class"] + " + " + m["class"], e["reason"]
+                else:
+                    m["class"] = m["class"] + " + " + e["class"]
+    return led
 
 
 def residue_rule(scope, owner_filter=None, rule="RESIDUE"):
@@ -41,12 +85,17 @@ def residue_rule(scope, owner_filter=None, rule="RESIDUE"):
     def run(ctx):
         r = rule
         f = ctx.facts()
-        g, grp, uni, total = _residue_groups(ctx)
+        g, grp0, uni, total = _residue_groups(ctx)
         fns, missing = R.reachable(g, entries)
+        grp = defaultdict(dict)
+        for (owner, kind), sites in grp0.items():
+            if owner.startswith("(std)") or owner in fns:
+                grp[(parent_fn(owner), family(kind))].update(sites)
+        fns = set(fns) | {parent_fn(o) for o in fns}
         obs = []
         obs.append(Ob(r, "%s:entries" % scope, not missing, "all %s entry points found in the call graph" % scope, detail=missing))
         ledger = load_ledger()
-        led = {(e["owner"], e["kind"]): e for e in ledger["entries"]}
+        led = _merge_ledger(ledger["entries"])
         # universe size in scope (how many potential panic sites the compiler had to consider)
         uni_in = sum(1 for k, v in uni.items() if any(o in fns for o, _k, _s in v))
         floor_uni = 250 if scope == "decode" and owner_filter is None else 1
@@ -63,7 +112,7 @@ def residue_rule(scope, owner_filter=None, rule="RESIDUE"):
         for e0 in ledger["entries"]:
             fl = e0.get("file")
             if fl:
-                file_led[(fl, e0["kind"])] += e0["max_sites"]
+                file_led[(fl, family(e0["kind"]))] += e0["max_sites"]
         file_now = defaultdict(int)
         for (owner, kind), sites in grp.items():
             if owner.startswith("(std)"):
@@ -85,6 +134,14 @@ def residue_rule(scope, owner_filter=None, rule="RESIDUE"):
             # distinct residual *expressions* (source snippets): duplicating an already reviewed expression inside the same
             # function is neutral, a new unproved expression is not
             snips = {(s.get("snippet") or s.get("std_loc") or s["pos"])[:100] for s in sites.values()}
+            if kind == "alloc":
+                # allocation failure / capacity overflow of a collection: out of the property's reach (DESIGN §3), counted only
+                obs.append(Ob(r, "%s|alloc" % owner, True, "%d allocation-failure path(s) in %s (handle_alloc_error / capacity overflow): not a decoding panic" % (len(sites), owner), info=True))
+                continue
+            if kind == "cleanup":
+                # panic_in_cleanup is the landing pad's abort while unwinding from another panic: never a first failure
+                obs.append(Ob(r, "%s|cleanup" % owner, True, "%d unwind-cleanup abort path(s) in %s: only reachable after another panic" % (len(sites), owner), info=True))
+                continue
             e = led.get((owner, kind))
             descr = "; ".join(sorted(x[:70] for x in snips))[:300]
             where = sorted(sites)[0]
